@@ -99,6 +99,9 @@ func FuzzC15Payload(f *testing.F) {
 		ep.fresh()
 		descr := fmt.Sprintf("%s %x", codeName(uint64(code)), payload)
 		o := ep.deliverBytes(uint64(code), payload, descr)
+		if o == blocked {
+			t.Fatalf("C15/message-loop-blocked/%s: handler parked for good after %s\n%s", ep.wedged.fn, trim(descr, 300), ep.wedged.dump)
+		}
 		if o == stalled {
 			t.Skip("inconclusive: no progress within the deadline")
 		}
